@@ -207,6 +207,12 @@ type scheduler struct {
 	flushes    int
 	blockMs    int
 	freeMode   bool
+	// PCT mode
+	pctPrio    []int
+	pctChange  []int
+	pctLow     int
+	pctDepth   int
+	pctHorizon int
 }
 
 // freeRun releases every parked task and answers every later request at once.
@@ -288,6 +294,31 @@ func (s *scheduler) run() {
 			pick = c % len(runnable)
 		case s.after == "first":
 			pick = 0
+		case s.after == "pct":
+			// PCT (Burckhardt et al., ASPLOS 2010): random task priorities, the runnable task with
+			// the highest priority runs, and at d-1 random change points the running task drops to
+			// the lowest priority.  Finds ordering bugs of small depth with known probability.
+			if s.pctPrio == nil {
+				s.pctPrio = s.rng.Perm(s.n)
+				for i := range s.pctPrio {
+					s.pctPrio[i] += s.n // above every demoted value
+				}
+				for d := 0; d < s.pctDepth-1; d++ {
+					s.pctChange = append(s.pctChange, s.rng.Intn(s.pctHorizon))
+				}
+			}
+			for _, cp := range s.pctChange {
+				if cp == step && last >= 0 {
+					s.pctLow--
+					s.pctPrio[last] = s.pctLow
+				}
+			}
+			best := -1 << 30
+			for j, t := range runnable {
+				if s.pctPrio[t] > best {
+					best, pick = s.pctPrio[t], j
+				}
+			}
 		default:
 			pick = s.rng.Intn(len(runnable))
 			if last >= 0 && s.rng.Bool(s.stick) {
